@@ -25,6 +25,7 @@ type Params struct {
 	Retention bool
 	Faults    []string
 	Initial   string // none | zero | valid
+	ConstMeta bool   // all marks/resets carry the same (empty) metadata
 	RetryMax  int
 	MaxOps    int // marks+resets per partition
 	Gates     map[string]bool
@@ -46,7 +47,7 @@ func atoi(v url.Values, k string, def int) int {
 
 func init() {
 	gx.RegisterRig("om", func(v url.Values) (*gx.Scenario, error) {
-		p := &Params{NParts: atoi(v, "np", 1), Auto: atoi(v, "auto", 1) == 1, Retention: atoi(v, "ret", 0) == 1, Initial: v.Get("init"),
+		p := &Params{NParts: atoi(v, "np", 1), Auto: atoi(v, "auto", 1) == 1, Retention: atoi(v, "ret", 0) == 1, Initial: v.Get("init"), ConstMeta: v.Get("meta") == "const",
 			RetryMax: atoi(v, "rm", 1), MaxOps: atoi(v, "ops", 2), CloseAny: atoi(v, "closeany", 1) == 1,
 			ErrBuf: atoi(v, "errbuf", 16), SlowErr: atoi(v, "slowerr", 0) == 1}
 		if p.Initial == "" {
@@ -323,6 +324,9 @@ func (r *rig) actors() []gx.Actor {
 				r.mu.Lock()
 				r.seq++
 				meta := fmt.Sprintf("%s%d", kind[:1], r.seq)
+				if p.ConstMeta {
+					meta = "" // what most applications pass: every mark and reset carries the same metadata
+				}
 				ps.nops++
 				r.mu.Unlock()
 				b0, _ := ps.pom.NextOffset()
